@@ -253,7 +253,8 @@ def gen_api_history(seed, nops=30, malformed=0.25, with_io=None, caller_mut=0.0,
         elif c < 0.84 and r.random() < 0.07:   # hand a parameter STORED in the object back to it, into a new or an existing group
             sg, sp = r.choice([(b"POINT", b"RATE"), (b"POINT", b"LABELS"), (b"ANALOG", b"USED"), (b"FORCE_PLATFORM", b"ZERO"), (b"ANALOG", b"SCALE")] if not bad
                               else [(b"POINT", b"NOPE"), (b"NOGROUP", b"RATE"), (b"POINT", b"UNITS")])
-            dg = r.choice(groups) if r.random() < 0.3 else g.simple_name(b"G")
+            others = [x for x in groups if x.strip().upper() not in (b"POINT", b"ANALOG")]    # never onto the parameters the object derives its shape from
+            dg = r.choice(others) if others and r.random() < 0.3 else g.simple_name(b"G")
             if dg not in groups: groups.append(dg)
             L.append("paramself %s %s %s" % (xhex(sg), xhex(sp), xhex(dg))); g.count("op_paramself")
         elif c < 0.84:  # parameter edits
